@@ -41,6 +41,9 @@ type rtCheck struct {
 	AllowFiles bool
 	// PostDesign is called once per design with its setup record (mounted routes) — used by C07.
 	PostDesign func(run *vc.Run, d *pipeline.Design, setup map[string]any)
+	// PostUncompiled is called for an accepted design whose generated code does not compile (its generated
+	// non-Go files can still be judged) — used by C07.
+	PostUncompiled func(run *vc.Run, d *pipeline.Design)
 	// Streams lets the generator emit HTTP streaming (websocket) methods with a modest probability in the
 	// check's own profiles (C07: they are documented and mounted, not driven).
 	Streams bool
@@ -265,6 +268,9 @@ func runDesigns(run *vc.Run, c *rtCheck, dir string, specs []*spec.Spec, mk func
 			}
 		case !d.Compiled:
 			run.Inconclusive("generated code does not compile (C01)")
+			if c.PostUncompiled != nil {
+				c.PostUncompiled(run, d)
+			}
 			if verbose || os.Getenv("VERIF_DEBUG") != "" {
 				fmt.Fprintf(os.Stderr, "%s does not compile: %v\n", d.ID, d.Diags)
 			}
